@@ -483,6 +483,8 @@ class SNum(Sym):
         mm = rat(m)
         if mm <= 0:
             raise Inconclusive('mod by non-positive modulus not modelled')
+        if FLOOR_FORK and not self.is_int:
+            return self - sfloor(self / mm) * mm
         a = self.t if not self.is_int else z3.ToReal(self.t)
         q = z3.ToInt(a / z3.RealVal(str(mm)))
         return mk(a - z3.ToReal(q) * z3.RealVal(str(mm)))
@@ -649,11 +651,24 @@ def _real(x):
     return t if t.sort() == z3.RealSort() else z3.ToReal(t)
 
 
+FLOOR_FORK = False  # decide floor()/rint() of a symbolic real by forking on its (small) integer value instead of a ToInt term
+
+
+def _fork_int_part(x, lo_of, hi_of, what):
+    """Smallest-magnitude-first search for the integer k with lo_of(k) <= ... (forks; conditions are linear in x)."""
+    for k in (0, 1, -1, 2, -2, 3, -3, 4, -4):
+        if bool(lo_of(k)):
+            return k
+    raise Inconclusive(f'{what}: integer part outside [-4, 4]')
+
+
 def sfloor(x):
     """floor as a real-valued number (numpy returns float for float input)."""
     if isinstance(x, SNum):
         if x.is_int:
             return x
+        if FLOOR_FORK:
+            return _fork_int_part(x, lambda k: (x >= k) & (x < k + 1), None, 'floor')
         return mk(z3.ToReal(z3.ToInt(x.t)))
     f = rat(x)
     return Fraction(f.numerator // f.denominator)
@@ -663,6 +678,8 @@ def sfloor_int(x):
     if isinstance(x, SNum):
         if x.is_int:
             return x
+        if FLOOR_FORK:
+            return sfloor(x)
         return mk(z3.ToInt(x.t))
     f = rat(x)
     return f.numerator // f.denominator
@@ -690,6 +707,10 @@ def srint(x):
     if isinstance(x, SNum):
         if x.is_int:
             return x
+        if FLOOR_FORK:
+            h = Fraction(1, 2)
+            return _fork_int_part(
+                x, lambda k: ((x > k - h) & (x < k + h)) | ((x == k - h) | (x == k + h) if k % 2 == 0 else False), None, 'rint')
         f = z3.ToInt(x.t)
         fr = x.t - z3.ToReal(f)
         half = z3.RealVal('1/2')
